@@ -410,10 +410,12 @@ func checkPredClauses(p *core.Prog, r *core.Report, rule string, clauses []predC
 		// the control conditions of the call chain are then part of what controls the message
 		type msgSite struct {
 			call  *ssa.Call
-			outer []string // control atoms of the call sites on the way from the rule function
+			outer []string          // control atoms of the call sites on the way from the rule function
+			subst map[string]string // parameters of the helper the message sits in -> what the rule function passes
 		}
 		var sites []msgSite
 		var search func(g *ssa.Function, outer []string, depth int, seen map[*ssa.Function]bool)
+		var curSubst map[string]string
 		search = func(g *ssa.Function, outer []string, depth int, seen map[*ssa.Function]bool) {
 			if depth > 3 || seen[g] {
 				return
@@ -429,13 +431,24 @@ func checkPredClauses(p *core.Prog, r *core.Report, rule string, clauses []predC
 					return
 				}
 				if core.BaseName(h) == cl.msg {
-					sites = append(sites, msgSite{c, outer})
+					sites = append(sites, msgSite{c, outer, curSubst})
 					return
 				}
 				sameRecv := h.Signature.Recv() != nil && f.Signature.Recv() != nil && core.NamedOf(h.Signature.Recv().Type()) == core.NamedOf(f.Signature.Recv().Type())
 				plainHelper := h.Signature.Recv() == nil && h.Object() != nil && !h.Object().Exported()
 				if p.InSubject(h) && len(h.Blocks) > 0 && (sameRecv || plainHelper) {
+					// inside the helper, a parameter stands for what this call site passes (one level)
+					saved := curSubst
+					if depth == 0 {
+						curSubst = map[string]string{}
+						for k, a := range c.Call.Args {
+							if k < len(h.Params) {
+								curSubst[opDesc(h.Params[k], 0)] = opDesc(a, 1)
+							}
+						}
+					}
 					search(h, append(append([]string{}, outer...), controlAtoms(c.Block())...), depth+1, seen)
+					curSubst = saved
 				}
 			})
 		}
@@ -452,7 +465,37 @@ func checkPredClauses(p *core.Prog, r *core.Report, rule string, clauses []predC
 			} else {
 				r.OK(rule, key+":per-element-flag", p.Pos(s.Pos()), "no flag controlling this message is carried over from one element of the enclosing loop to the next")
 			}
-			atoms := uniq(append(append([]string{}, ms.outer...), controlAtoms(s.Block())...))
+			inner := controlAtoms(s.Block())
+			if len(ms.subst) > 0 {
+				// longest parameter names first (arg10 before arg1)
+				var names []string
+				for k := range ms.subst {
+					names = append(names, k)
+				}
+				sort.Slice(names, func(i, j int) bool { return len(names[i]) > len(names[j]) })
+				for k, a := range inner {
+					for _, nm := range names {
+						if nm == ms.subst[nm] {
+							continue
+						}
+						a = regexp.MustCompile(`\b`+regexp.QuoteMeta(nm)+`\b`).ReplaceAllString(a, strings.ReplaceAll(ms.subst[nm], "$", "$$"))
+					}
+					inner[k] = a
+				}
+			}
+			atoms := uniq(append(append([]string{}, ms.outer...), inner...))
+			// a positive flag / boolean helper with a single way of answering true stands for the conjunction of
+			// its member conditions
+			for _, a := range atoms {
+				if strings.HasPrefix(a, "flag{") && strings.HasSuffix(a, "}") && !strings.Contains(a, "|") {
+					for _, m := range strings.Split(a[5:len(a)-1], "&") {
+						if m != "" {
+							atoms = append(atoms, m)
+						}
+					}
+				}
+			}
+			atoms = uniq(atoms)
 			joined := strings.Join(atoms, " ; ")
 			var missing, wrong []string
 			for _, need := range cl.need {
